@@ -2,7 +2,7 @@
    Only pinned statements; the model is Idl/IdlParse.v (a transcription of
    zlink-core/src/idl/parse/mod.rs incl. winnow's combinators), the proofs are in Idl/IdlSafe.v. *)
 From ZV Require Import Common.Base Idl.Idl Idl.IdlParse Idl.IdlParseOld Idl.IdlSafe Idl.IdlExec
-  Idl.IdlExamples.
+  Idl.IdlExamples Idl.IdlComplete Idl.IdlCompleteEx Idl.IdlSound.
 
 (* The parser never panics: for EVERY valid UTF-8 byte string (the argument of
    Interface::try_from is a &str) no slice is out of range, no from_utf8(..).unwrap() fails and
@@ -28,6 +28,74 @@ Print Assumptions C13_no_panic_refuted_before_fix.
 Theorem C13_terminates : forall s, utf8_valid s = true -> parse_interface s <> OFuel.
 Proof. intros s H. exact (proj2 (parse_interface_safe s H)). Qed.
 Print Assumptions C13_terminates.
+
+(* Completeness: EVERY legal layout of a description parses to exactly that description, with the
+   members of each kind in source order (the tree keeps one list per kind: interface_of).
+   `Linterface n cs ms s` (Idl/IdlComplete.v) says that the text s lays out the interface named n
+   with comments cs and members ms (in source order):
+     - names follow the grammar's regular expressions; types are any nesting of optional (not of an
+       optional), array, map, custom, inline struct (possibly empty) and inline enum (non-empty);
+     - ANY string of ASCII blanks (space, tab, CR, LF) may stand wherever the grammar has `_`: around
+       the text, between `(` `)` `,` `:` `->` and their neighbours, at least one after the keywords
+       interface / method / type / error and in front of every member;
+     - comment lines (`#`, optional blanks, text, LF or CR or CRLF, then any blanks, so also
+       indented) stand before the interface, before a member and before a direct field / parameter /
+       variant of a member and are attached to it, with their text (valid UTF-8, no line break);
+     - inside inline types the gaps after `(` and after `,` (i.e. before every field / variant) may
+       additionally contain comment lines, which are layout only.
+   Outside this relation (not demanded by the property): comments in other `_` positions, the
+   Unicode blanks of the published grammar. *)
+Theorem C13_complete : forall (n : name) (cs : list comment) (ms : list member) (s : list byte),
+  Linterface n cs ms s -> parse_interface s = Accept (interface_of n cs ms).
+Proof. exact parse_layout. Qed.
+Print Assumptions C13_complete.
+
+(* "the description it denotes" is well defined: a text is a legal layout of at most one tree *)
+Theorem C13_layout_unambiguous : forall n1 cs1 ms1 n2 cs2 ms2 s,
+  Linterface n1 cs1 ms1 s -> Linterface n2 cs2 ms2 s ->
+  interface_of n1 cs1 ms1 = interface_of n2 cs2 ms2.
+Proof. exact layout_unambiguous. Qed.
+Print Assumptions C13_layout_unambiguous.
+
+(* the type-level core: the type parser consumes exactly a laid-out type in front of `,` / `)` *)
+Theorem C13_complete_types : forall (t : ty) (s x : list byte),
+  Lty t s -> closes x -> varlink_type (s ++ x) = (Ok t, x).
+Proof. exact varlink_type_gap. Qed.
+Print Assumptions C13_complete_types.
+
+(* Non-vacuity of C13_complete: a text in a decidedly non-canonical layout (leading blank, doubled
+   blanks, blanks around ':' and inside the parentheses, a comment line inside an inline enum,
+   `)->(` without blanks, trailing newline) satisfies the relation. *)
+Example C13_complete_nonvacuous :
+  Linterface ex_name ex_comments ex_members ex_text
+  /\ parse_interface ex_text = Accept (interface_of ex_name ex_comments ex_members).
+Proof. split; [exact ex_layout | vm_compute; reflexivity]. Qed.
+
+(* Soundness: whatever the parser accepts is in the grammar and nothing of it is ignored or
+   fabricated. For EVERY byte string s: if the parser accepts s with tree t, then (the text is first
+   trimmed as str::trim does)
+     - the token sequence of s under the Varlink lexer (Idl.lex: words by maximal munch, the
+       punctuation ( ) , : -> ? [] [string], blanks and #-comments skipped; a byte outside these
+       makes lex fail) is exactly `interface` NAME followed by the tokens of the members ms in their
+       source order, and t is those members sorted into the tree's three lists (interface_of);
+     - every name of t follows the grammar's regular expression for its kind (names_ok);
+     - t has no enum without variants and no optional of an optional (enums_ok).
+   In particular no text with a trailing or embedded part that is not a member is accepted, no
+   member is dropped, `()` is the empty struct. *)
+Theorem C13_sound : forall (s : list byte) (t : interface),
+  parse_interface s = Accept t ->
+  exists ms : list member,
+    t = interface_of (iname t) (icomments t) ms
+    /\ lex (trim s) = Some (tokens_of_members (iname t) ms)
+    /\ names_ok t = true /\ enums_ok t = true.
+Proof. exact parse_sound. Qed.
+Print Assumptions C13_sound.
+
+(* the same in the executable form the correspondence check evaluates on every accepted text *)
+Theorem C13_sound_exec : forall (s : list byte) (t : interface),
+  parse_interface s = Accept t -> sound_accept s t = true.
+Proof. exact parse_sound_exec. Qed.
+Print Assumptions C13_sound_exec.
 
 (* Non-vacuity: the official org.varlink.service description is parsed by the model to the
    expected tree, its text denotes that tree in the token language, and all names are legal. *)
